@@ -31,14 +31,21 @@ func GetLabelsValues(obj *metav1.ObjectMeta) ([]string, []string) {
 
 // BuildInfoLabels build the lists of label keys and values from the ObjectMeta Labels.
 func BuildInfoLabels(obj *metav1.ObjectMeta) ([]string, []string) {
-	labelKeys := []string{}
+	// Sort the original keys so that the output is deterministic, then order by sanitized key:
+	// the value is always the one of the label the sanitized key comes from.
+	originalKeys := make([]string, 0, len(obj.Labels))
 	for key := range obj.Labels {
-		labelKeys = append(labelKeys, sanitizeLabelName(key))
+		originalKeys = append(originalKeys, key)
 	}
-	sort.Strings(labelKeys)
+	sort.Strings(originalKeys)
+	sort.SliceStable(originalKeys, func(i, j int) bool {
+		return sanitizeLabelName(originalKeys[i]) < sanitizeLabelName(originalKeys[j])
+	})
 
-	labelValues := make([]string, len(obj.Labels))
-	for i, key := range labelKeys {
+	labelKeys := make([]string, len(originalKeys))
+	labelValues := make([]string, len(originalKeys))
+	for i, key := range originalKeys {
+		labelKeys[i] = sanitizeLabelName(key)
 		labelValues[i] = obj.Labels[key]
 	}
 
